@@ -294,6 +294,16 @@ func (w *World) enter(fs *FuncSpec, got []reflect.Value) (outs []reflect.Value, 
 	ev := Event{Seq: w.seq, Func: fs.ID, Exec: exec, GID: gid, OpTag: op}
 	for i, l := range fs.In {
 		ev.Args = append(ev.Args, ArgObs{L: l, Obs: Observe(got[i])})
+		// a body updates the shared object it was handed, under the
+		// program's lock (w.mu): nobody else has any business reading it
+		if gv := got[i]; gv.IsValid() {
+			if gv.Kind() == reflect.Interface && !gv.IsNil() {
+				gv = gv.Elem()
+			}
+			if p, ok := gv.Interface().(*T3); ok && p != nil {
+				p.Aux++
+			}
+		}
 	}
 	outs = make([]reflect.Value, len(fs.Out))
 	for i, l := range fs.Out {
